@@ -108,7 +108,7 @@ def expect (tag : String) : P Unit := fun ws =>
   | w :: r => if w == tag then some ((), r) else none
   | [] => none
 
-def parseFont (ws : List String) : Option FontDict := do
+def parseFont (ws : List String) : Option RawFontDict := do
   let (sub, ws) ← pWord ws
   let (bf, ws) ← pWord ws
   let baseFont ← (if bf == "-" then some none else (parseStrArg bf).map some)
@@ -147,10 +147,11 @@ def parseFont (ws : List String) : Option FontDict := do
     let mw ← (if mww == "-" then some none else (ratOfString mww).map some)
     let (_, ws) ← expect "F" ws
     let (fk, ws) ← pWord ws
-    if fk == "none" then some (some { missingWidth := mw, fontFile := none : Descriptor }, ws) else do
-      let (k, ws) ← pNat ws
-      let (puts, ws) ← pMany pPut k ws
-      some (some { missingWidth := mw, fontFile := some { notdefLoop := fk == "1", puts := puts } : Descriptor }, ws))
+    if fk == "none" then some (some { missingWidth := mw, fontFile := none : DescriptorOf RawFontFile }, ws) else do
+      let l1 ← fk.toInt?
+      let (hx, ws) ← pWord ws
+      let bs ← bytesOfHex hx
+      some (some { missingWidth := mw, fontFile := some { data := bs, length1 := l1 } : DescriptorOf RawFontFile }, ws))
   let (_, ws) ← expect "M" ws
   let (fm, ws) ← (match ws with
     | ["none"] => some (((1 : Rat) / 1000, 0, 0, (1 : Rat) / 1000, 0, 0), ([] : List String))
@@ -160,7 +161,8 @@ def parseFont (ws : List String) : Option FontDict := do
       | [a, b, c, d, e, f] => some ((a, b, c, d, e, f), ws)
       | _ => none)
   if !ws.isEmpty then none else
-  some { isType3 := sub == "Type3", baseFont := baseFont, enc := enc, toUnicode := tu, firstChar := fc,
+  let isT3 ← simpleClass (if sub == "absent" then none else some sub)   -- `get_font` dispatch (composite: not C06)
+  some { isType3 := isT3, baseFont := baseFont, enc := enc, toUnicode := tu, firstChar := fc,
          widths := widths, desc := desc, fontMatrix := fm }
 
 def codes256 : List Int := (List.range 256).map Int.ofNat
@@ -214,25 +216,37 @@ def handle (line : String) : String :=
     | _, _ => "bad-op"
   | "font" :: rest =>
     match parseFont rest with
-    | some fd =>
-      let f := build glyphs encDB metrics fd
-      " ".intercalate (codes256.map (fun c => cpsStr (glyphText f c) ++ "|" ++ ratToString (glyphAdv f c)))
+    | some raw =>
+      match buildRaw glyphs encDB metrics raw with
+      | .ok f =>
+        " ".intercalate (codes256.map (fun c => cpsStr (glyphText f c) ++ "|" ++ ratToString (glyphAdv f c)))
+      | .error e => "E " ++ e
     | none => "bad-op"
   | "fontspec" :: rest =>
     match parseFont rest with
-    | some fd =>
-      " ".intercalate (codes256.map (fun c =>
-        if Spec.judgedCode tables fd c then
-          cpsStr (Spec.specText tables fd c) ++ "|" ++ ratToString (Spec.specWidth tables fd c)
-        else "?"))
+    | some raw =>
+      match resolveFontFile metrics raw with
+      | .error _ => "O"
+      | .ok fd =>
+        " ".intercalate (codes256.map (fun c =>
+          if Spec.judgedCode tables fd c then
+            cpsStr (Spec.specText tables fd c) ++ "|" ++ ratToString (Spec.specWidth tables fd c)
+          else "?"))
+    | none => "bad-op"
+  | ["t1puts", hx] =>
+    match bytesOfHex hx with
+    | some bs =>
+      match t1Puts bs with
+      | .ok ps => if ps.isEmpty then "-" else " ".intercalate (ps.map (fun p => toString p.1 ++ ":" ++
+          (match p.2 with | some n => showNameArg n | none => "b")))
+      | .error e => "E " ++ e
     | none => "bad-op"
   | ["tab.facts"] =>
     -- the table facts the theorems assume (`TablesOK`), evaluated on the regenerated data
     let a := glyphs.all (fun e => !e.2.isEmpty)
     let b := rows.all (fun r => (name2unicode glyphs (some r.1)).isSome)
     let c := rows.all (fun r => Spec.judgedName glyphs (some r.1))
-    let d := (glLookup glyphs []).isNone
-    s!"glyph-values-nonempty={a} rows-resolve={b} rows-judged={c} empty-name-absent={d}"
+    s!"glyph-values-nonempty={a} rows-resolve={b} rows-judged={c}"
   | ["tab.glyphcount"] => toString glyphs.length
   | ["tab.enccount"] => toString rows.length
   | ["tab.metrics", a] =>
